@@ -117,7 +117,7 @@ DocsOK == DocOK(D)
 
 \* the macrostep terminates within the bound (documents with unbounded eventless loops are generator bugs)
 \* -- checked by the state constraint of the config: Len(st.iq) stays small
-QueueBound == Len(st.iq) <= 6
+QueueBound == Len(st.iq) <= 60
 
 \* One REPLAY line per maximal behaviour: document and the external events sent
 Emit == (pc = "done") => PrintT(<<"REPLAY", d, sent>>)
